@@ -279,6 +279,21 @@ func main() {
 						t.usedFields[v] = true
 					}
 				}
+				// the embedded fields a promoted field or method goes through
+				if s, ok := p.info.Selections[sel]; ok && len(s.Index()) > 1 {
+					ty := s.Recv()
+					for _, i := range s.Index()[:len(s.Index())-1] {
+						if pt, ok := ty.Underlying().(*types.Pointer); ok {
+							ty = pt.Elem()
+						}
+						st, ok := ty.Underlying().(*types.Struct)
+						if !ok {
+							break
+						}
+						t.usedFields[st.Field(i)] = true
+						ty = st.Field(i).Type()
+					}
+				}
 			}
 			if kv, ok := n.(*ast.KeyValueExpr); ok {
 				if id, ok := kv.Key.(*ast.Ident); ok {
@@ -1351,6 +1366,31 @@ func (t *tr) structVar(e ast.Expr) (string, bool) {
 	return "", false
 }
 
+// selPath: the Lean projection path of a field or method selection, spelling out the embedded fields a promoted name
+// goes through (`r.status` with `status` promoted from the embedded `reader` is `reader.status`); the last element
+// is the selected name itself
+func (t *tr) selPath(x *ast.SelectorExpr) []string {
+	s, ok := t.p.info.Selections[x]
+	if !ok || len(s.Index()) < 2 {
+		return []string{name(x.Sel.Name)}
+	}
+	ty := s.Recv()
+	var path []string
+	for _, i := range s.Index()[:len(s.Index())-1] {
+		if p, ok := ty.Underlying().(*types.Pointer); ok {
+			ty = p.Elem()
+		}
+		st, ok := ty.Underlying().(*types.Struct)
+		if !ok {
+			t.fail(x, "promoted selection through %s", ty)
+		}
+		f := st.Field(i)
+		path = append(path, name(f.Name()))
+		ty = f.Type()
+	}
+	return append(path, name(x.Sel.Name))
+}
+
 func (t *tr) assignTo(sb *strings.Builder, lhs ast.Expr, val string, define bool, ind string, n ast.Node) {
 	switch x := lhs.(type) {
 	case *ast.Ident:
@@ -1369,7 +1409,7 @@ func (t *tr) assignTo(sb *strings.Builder, lhs ast.Expr, val string, define bool
 		}
 	case *ast.SelectorExpr:
 		if sv, ok := t.structVar(x.X); ok {
-			fmt.Fprintf(sb, "%s%s := { %s with %s := %s }\n", ind, sv, sv, name(x.Sel.Name), val)
+			fmt.Fprintf(sb, "%s%s := { %s with %s := %s }\n", ind, sv, sv, strings.Join(t.selPath(x), "."), val)
 			return
 		}
 		t.fail(n, "assignment to %s", exprString(lhs))
@@ -1475,6 +1515,48 @@ func (t *tr) stmt(sb *strings.Builder, s ast.Stmt, ind string) bool {
 		return true
 	case *ast.ReturnStmt:
 		var vals []string
+		if len(x.Results) == 1 {
+			// return recv.m(args) with a method that writes to its receiver (possibly promoted from an embedded struct)
+			if c, ok := x.Results[0].(*ast.CallExpr); ok {
+				if g := t.callee(t.p, c); g != nil && t.funcs[g] != nil && g.Type().(*types.Signature).Recv() != nil && t.mutatesRecv(g) {
+					sel, isSel := c.Fun.(*ast.SelectorExpr)
+					if !isSel {
+						t.fail(c, "method value")
+					}
+					sv, ok := t.structVar(sel.X)
+					if !ok {
+						t.fail(c, "method call on %s", exprString(sel.X))
+					}
+					path := t.selPath(sel)
+					path = path[:len(path)-1]
+					recv := sv
+					if len(path) > 0 {
+						recv = sv + "." + strings.Join(path, ".")
+					}
+					args := []string{recv}
+					for _, a := range c.Args {
+						args = append(args, t.atom(a))
+					}
+					nres := g.Type().(*types.Signature).Results().Len()
+					tmp := t.fresh("res")
+					fmt.Fprintf(sb, "%slet %s ← %s %s\n", ind, tmp, t.funcName(g), strings.Join(args, " "))
+					back := tmp
+					if nres > 0 {
+						back = tmp + ".1"
+					}
+					if len(path) > 0 {
+						fmt.Fprintf(sb, "%s%s := { %s with %s := %s }\n", ind, sv, sv, strings.Join(path, "."), back)
+					} else {
+						fmt.Fprintf(sb, "%s%s := %s\n", ind, sv, back)
+					}
+					for i := 0; i < nres; i++ {
+						vals = append(vals, proj(tmp+".2", i, nres))
+					}
+					fmt.Fprintf(sb, "%s%s\n", ind, t.returnStmt(x, vals))
+					return true
+				}
+			}
+		}
 		if len(x.Results) == 1 && t.results.Len() > 1 {
 			// return f() with several results
 			tmp := t.fresh("ret")
@@ -2089,7 +2171,7 @@ func (t *tr) expr(e ast.Expr) string {
 			if _, isFn := s.Type().Underlying().(*types.Signature); isFn {
 				t.fail(e, "function field %s used as a value", x.Sel.Name)
 			}
-			return t.atom(x.X) + "." + name(x.Sel.Name)
+			return t.atom(x.X) + "." + strings.Join(t.selPath(x), ".")
 		}
 		t.fail(e, "selector %s", exprString(e))
 	case *ast.BasicLit:
